@@ -12,7 +12,7 @@
 use crate::cli::{apply_fault, Tree, FAULT_KINDS};
 use crate::corpus::library;
 use crate::engine::{Run, Tier};
-use crate::gen::{gen_doc, shipped_cases, DocCase};
+use crate::gen::{shipped_cases, DocCase};
 use crate::seams::{run_process, ProcExit, ProcSpec};
 use crate::tape::Tape;
 use indexmap::IndexMap;
@@ -387,6 +387,44 @@ pub const SHAPES: &[&str] = &[
     "component-many-imports-explicit-args",
     "dag-records",
     "dag-variants-in-func",
+    "empty-delimiters",
+];
+
+/// Every bracketed list of the grammar with nothing (or only a separator) inside.
+const EMPTY_FORMS: &[&str] = &[
+    "type t = tuple<>;",
+    "type t = tuple<,>;",
+    "type t = list<>;",
+    "type t = option<>;",
+    "type t = result<>;",
+    "type t = result<,>;",
+    "type t = result<_,>;",
+    "type t = borrow<>;",
+    "record r {}",
+    "record r { , }",
+    "variant v {}",
+    "variant v { a() }",
+    "enum e {}",
+    "flags f {}",
+    "type f = func(,);",
+    "type f = func() -> ;",
+    "interface i {}",
+    "interface i { use a.{}; }",
+    "interface i { resource r {} }",
+    "interface i { f: func(x: borrow<>); }",
+    "world w {}",
+    "world w { include a:b/c with {}; }",
+    "world w { import x: interface {}; }",
+    "import x: interface {};",
+    "let x = new a:b {};",
+    "let x = new a:b { , };",
+    "let x = new a:b { ...  };",
+    "let x = y[\"\"];",
+    "let x = y.;",
+    "let x = ();",
+    "export x as \"\";",
+    "import x as \"\": func();",
+    "package a:b targets ;",
 ];
 
 fn shape(t: &mut Tape) -> (String, String, Pkgs) {
@@ -540,6 +578,12 @@ fn shape(t: &mut Tape) -> (String, String, Pkgs) {
             s.push_str(&format!("type f = func() -> t{m};\nimport g: func(x: t{m});\n"));
             (s, Vec::new())
         }
+        "empty-delimiters" => {
+            let form = EMPTY_FORMS[t.index(EMPTY_FORMS.len())];
+            // alone, and after a valid prefix (so that the resolver sees what the parser accepts)
+            let prefix = if t.chance(1, 2) { "import y: func();\ninterface a { type t = u8; }\n" } else { "" };
+            (format!("{head}{prefix}{form}\n"), lib)
+        }
         "dag-variants-in-func" => {
             let m = n.min(200).max(1);
             let mut s = String::from(head);
@@ -652,7 +696,124 @@ struct EnumSpace {
     files: Vec<EnumFile>,
     /// cumulative number of points before file i
     starts: Vec<u64>,
+    /// number of byte-level points (truncations and bit flips); token-level points follow
+    byte_total: u64,
+    /// source files with their tokens: (index into `files`, token byte ranges)
+    tok_files: Vec<(usize, Vec<(usize, usize)>)>,
+    /// cumulative number of token-level points before tok_files[i] (relative to byte_total)
+    tok_starts: Vec<u64>,
     total: u64,
+}
+
+/// Token-level faults (a lost or repeated small write): per token, delete it / write it twice.
+const TOKEN_KINDS: &[&str] = &["delete_token", "dup_token"];
+
+/// Splits WAC text into lexical tokens (byte ranges); comments and strings are one token each.
+fn tokens_of(src: &str) -> Vec<(usize, usize)> {
+    let b = src.as_bytes();
+    let mut out = Vec::new();
+    let mut i = 0;
+    let word = |c: u8| c.is_ascii_alphanumeric() || c == b'_' || c == b'%' || c == b'-';
+    while i < b.len() {
+        let c = b[i];
+        if c.is_ascii_whitespace() {
+            i += 1;
+            continue;
+        }
+        let start = i;
+        if c == b'/' && b.get(i + 1) == Some(&b'/') {
+            while i < b.len() && b[i] != b'\n' {
+                i += 1;
+            }
+        } else if c == b'/' && b.get(i + 1) == Some(&b'*') {
+            i += 2;
+            while i < b.len() && !(b[i] == b'*' && b.get(i + 1) == Some(&b'/')) {
+                i += 1;
+            }
+            i = (i + 2).min(b.len());
+        } else if c == b'"' {
+            i += 1;
+            while i < b.len() && b[i] != b'"' {
+                i += 1;
+            }
+            i = (i + 1).min(b.len());
+        } else if c == b'.' && b.get(i + 1) == Some(&b'.') && b.get(i + 2) == Some(&b'.') {
+            i += 3;
+        } else if c == b'-' && b.get(i + 1) == Some(&b'>') {
+            i += 2;
+        } else if word(c) && c != b'-' {
+            while i < b.len() && word(b[i]) && !(b[i] == b'-' && b.get(i + 1) == Some(&b'>')) {
+                i += 1;
+            }
+        } else if c < 0x80 {
+            i += 1;
+        } else {
+            // one whole non-ASCII character
+            i += 1;
+            while i < b.len() && (b[i] & 0xC0) == 0x80 {
+                i += 1;
+            }
+        }
+        out.push((start, i));
+    }
+    out
+}
+
+fn mutate_token(b: &mut Vec<u8>, kind: &str, range: (usize, usize)) {
+    let (a, z) = range;
+    if z > b.len() || a > z {
+        return;
+    }
+    match kind {
+        "delete_token" => {
+            b.drain(a..z);
+        }
+        _ => {
+            let mut chunk = b[a..z].to_vec();
+            chunk.insert(0, b' ');
+            b.splice(z..z, chunk);
+        }
+    }
+}
+
+/// What an enumeration point denotes.
+struct Point {
+    /// index into `EnumSpace::files`
+    file: usize,
+    kind: &'static str,
+    /// byte offset (byte-level kinds) or token index (token-level kinds)
+    off: usize,
+    bit: u8,
+    token: Option<(usize, usize)>,
+}
+
+fn decode_point(sp: &EnumSpace, point: u64) -> Point {
+    if point < sp.byte_total {
+        let fi = match sp.starts.binary_search(&point) {
+            Ok(i) => i,
+            Err(i) => i - 1,
+        };
+        let local = point - sp.starts[fi];
+        let len = sp.files[fi].len as u64;
+        if local < len {
+            Point { file: fi, kind: "truncate", off: local as usize, bit: 0, token: None }
+        } else {
+            let r = local - len;
+            Point { file: fi, kind: "bitflip", off: (r / 8) as usize, bit: (r % 8) as u8, token: None }
+        }
+    } else {
+        let rel = point - sp.byte_total;
+        let ti = match sp.tok_starts.binary_search(&rel) {
+            Ok(i) => i,
+            Err(i) => i - 1,
+        };
+        let local = rel - sp.tok_starts[ti];
+        let (fi, toks) = &sp.tok_files[ti];
+        let n = toks.len() as u64;
+        let kind = TOKEN_KINDS[(local / n) as usize % TOKEN_KINDS.len()];
+        let k = (local % n) as usize;
+        Point { file: *fi, kind, off: k, bit: 0, token: Some(toks[k]) }
+    }
 }
 
 const MAX_ENUM_FILE: usize = 4096;
@@ -685,10 +846,16 @@ fn enum_space() -> &'static EnumSpace {
                 probes: Vec::new(),
             });
         }
+        // hand-written documents over the whole library (only their text is enumerated: the
+        // library's packages are already enumerated by the `lib:` cases above)
+        cases.extend(crate::gen::handwritten_cases());
         let mut files = Vec::new();
         for (ci, c) in cases.iter().enumerate() {
             if !c.source.is_empty() && c.source.len() <= MAX_ENUM_FILE {
                 files.push(EnumFile { case: ci, target: Target::Source, len: c.source.len() });
+            }
+            if c.label.starts_with("doc:") {
+                continue;
             }
             for (pi, (_, _, b)) in c.packages.iter().enumerate() {
                 if !b.is_empty() && b.len() <= MAX_ENUM_FILE {
@@ -702,7 +869,20 @@ fn enum_space() -> &'static EnumSpace {
             starts.push(total);
             total += points_of(f.len);
         }
-        EnumSpace { cases, files, starts, total }
+        let byte_total = total;
+        let mut tok_files = Vec::new();
+        let mut tok_starts = Vec::new();
+        for (fi, f) in files.iter().enumerate() {
+            if let Target::Source = f.target {
+                let toks = tokens_of(&cases[f.case].source);
+                if !toks.is_empty() {
+                    tok_starts.push(total - byte_total);
+                    total += (toks.len() * TOKEN_KINDS.len()) as u64;
+                    tok_files.push((fi, toks));
+                }
+            }
+        }
+        EnumSpace { cases, files, starts, byte_total, tok_files, tok_starts, total }
     })
 }
 
@@ -722,26 +902,18 @@ pub fn debug_doc(source: String) -> String {
 /// Debug helper: the mutated bytes of an enumeration point (source or package).
 pub fn dump_point(point: u64) -> (String, Vec<u8>) {
     let sp = enum_space();
-    let fi = match sp.starts.binary_search(&point) {
-        Ok(i) => i,
-        Err(i) => i - 1,
-    };
-    let file = &sp.files[fi];
-    let local = point - sp.starts[fi];
-    let len = file.len as u64;
-    let (kind, off, bit) = if local < len {
-        ("truncate", local as usize, 0u8)
-    } else {
-        let r = local - len;
-        ("bitflip", (r / 8) as usize, (r % 8) as u8)
-    };
+    let pt = decode_point(sp, point);
+    let file = &sp.files[pt.file];
     let case = &sp.cases[file.case];
     let mut b = match &file.target {
         Target::Source => case.source.clone().into_bytes(),
         Target::Package(pi) => case.packages[*pi].2.as_ref().clone(),
     };
-    mutate(&mut b, kind, off, bit);
-    (format!("{} {:?} {kind}@{off}.{bit}", case.label, file.target), b)
+    match pt.token {
+        Some(r) => mutate_token(&mut b, pt.kind, r),
+        None => mutate(&mut b, pt.kind, pt.off, pt.bit),
+    }
+    (format!("{} {:?} {}@{}.{}", case.label, file.target, pt.kind, pt.off, pt.bit), b)
 }
 
 /// Debug helper: the enumeration point of (case label, target, kind, offset, bit).
@@ -755,6 +927,11 @@ pub fn find_point(label: &str, pkg: Option<usize>, kind: &str, off: u64, bit: u6
             _ => false,
         };
         if c.label == label && target_ok {
+            if let Some(kk) = TOKEN_KINDS.iter().position(|k| *k == kind) {
+                let ti = sp.tok_files.iter().position(|(fi, _)| *fi == i)?;
+                let n = sp.tok_files[ti].1.len() as u64;
+                return Some(sp.byte_total + sp.tok_starts[ti] + kk as u64 * n + off);
+            }
             let local = if kind == "truncate" { off } else { f.len as u64 + off * 8 + bit };
             return Some(sp.starts[i] + local);
         }
@@ -766,6 +943,42 @@ pub fn enum_total() -> u64 {
     enum_space().total
 }
 
+/// The points (byte- and token-level) of the hand-written documents' sources: few enough to
+/// be visited in full by the quick tier as well.
+fn doc_points() -> &'static Vec<(u64, u64)> {
+    static R: OnceLock<Vec<(u64, u64)>> = OnceLock::new();
+    R.get_or_init(|| {
+        let sp = enum_space();
+        let mut v = Vec::new();
+        for (i, f) in sp.files.iter().enumerate() {
+            if sp.cases[f.case].label.starts_with("doc:") && matches!(f.target, Target::Source) {
+                v.push((sp.starts[i], points_of(f.len)));
+                if let Some(ti) = sp.tok_files.iter().position(|(fi, _)| *fi == i) {
+                    let n = (sp.tok_files[ti].1.len() * TOKEN_KINDS.len()) as u64;
+                    v.push((sp.byte_total + sp.tok_starts[ti], n));
+                }
+            }
+        }
+        v
+    })
+}
+
+fn doc_points_total() -> u64 {
+    doc_points().iter().map(|(_, n)| *n).sum()
+}
+
+fn nth_doc_point(mut k: u64) -> u64 {
+    for (start, n) in doc_points() {
+        if k < *n {
+            return start + k;
+        }
+        k -= n;
+    }
+    0
+}
+
+const QUICK_STRIDED: u64 = 30_000;
+
 fn to_versions(p: &Pkgs) -> Vec<(String, Option<Version>, Arc<Vec<u8>>)> {
     p.iter()
         .map(|(n, v, b)| (n.clone(), v.as_ref().and_then(|v| Version::parse(v).ok()), b.clone()))
@@ -774,25 +987,18 @@ fn to_versions(p: &Pkgs) -> Vec<(String, Option<Version>, Arc<Vec<u8>>)> {
 
 fn run_enum_point(run: &mut Run, point: u64) {
     let sp = enum_space();
-    let fi = match sp.starts.binary_search(&point) {
-        Ok(i) => i,
-        Err(i) => i - 1,
-    };
-    let file = &sp.files[fi];
-    let local = point - sp.starts[fi];
-    let len = file.len as u64;
-    let (kind, off, bit) = if local < len {
-        ("truncate", local as usize, 0u8)
-    } else {
-        let r = local - len;
-        ("bitflip", (r / 8) as usize, (r % 8) as u8)
-    };
+    let pt = decode_point(sp, point);
+    let file = &sp.files[pt.file];
+    let (kind, off, bit) = (pt.kind, pt.off, pt.bit);
     let case = &sp.cases[file.case];
     let mut source = case.source.clone().into_bytes();
     let mut packages = to_versions(&case.packages);
     let what = match &file.target {
         Target::Source => {
-            mutate(&mut source, kind, off, bit);
+            match pt.token {
+                Some(r) => mutate_token(&mut source, kind, r),
+                None => mutate(&mut source, kind, off, bit),
+            }
             "source".to_string()
         }
         Target::Package(pi) => {
@@ -863,7 +1069,7 @@ pub fn sampled_runs(tier: Tier) -> u64 {
 /// Enumeration points visited per tier (quick: a stride through the space).
 pub fn enum_runs(tier: Tier) -> u64 {
     match tier {
-        Tier::Quick => 30_000.min(enum_total()),
+        Tier::Quick => QUICK_STRIDED.min(enum_total()) + doc_points_total(),
         Tier::Thorough => enum_total(),
     }
 }
@@ -893,8 +1099,11 @@ fn run_inner(run: &mut Run) {
         // different seeds visit different points)
         let planned = if n >= total {
             k % total
+        } else if k >= QUICK_STRIDED {
+            // quick: every point of the hand-written documents
+            nth_doc_point(k - QUICK_STRIDED)
         } else {
-            let stride = total / n;
+            let stride = total / QUICK_STRIDED;
             (k * stride + (run.tape.draw(stride.max(1)))) % total
         };
         // the point itself goes on the tape, so a replay file names it explicitly
@@ -954,7 +1163,8 @@ fn run_inner(run: &mut Run) {
         ),
         _ => ("src.wac".into(), "deps".into(), Vec::new()),
     };
-    let nfaults = t.range(1, 4);
+    // mostly 1-4 faults; one run in eight is the fault-free configuration of the same scenario
+    let nfaults = if t.chance(1, 8) { 0 } else { t.range(1, 4) };
     // (faults on the child's stdout belong to C19; there is no child here)
     let mut fired: Vec<(&'static str, String)> = sc.faults.iter().filter(|(k, _)| *k != "stdout_full").cloned().collect();
     for _ in 0..nfaults {
